@@ -68,7 +68,34 @@ fn obs(pool: &[H], tracked: &[std::sync::Weak<Tok>], mon: &mut Mon, k: usize) ->
 /// params[0] == 1: every handle is created with FOREIGN functions (as another module or a C caller would build it through the published
 /// {instance, clone_fn, drop_fn} layout): counting wrappers that do what the local functions do.  Every clone of a non-empty handle must then
 /// run the stored clone function once, every release the stored drop function once, and nothing else may call either.
+// ---- "on any number of threads": the handles may cross threads exactly when std's Arc / Option<Arc> may.  Compile-time probes: an inherent associated
+// constant (available when the bound holds) shadows the trait's default.
+struct IsSend<T>(std::marker::PhantomData<T>);
+struct IsSync<T>(std::marker::PhantomData<T>);
+trait ProbeDefault { const YES: bool = false; }
+impl<T> ProbeDefault for IsSend<T> {}
+impl<T> ProbeDefault for IsSync<T> {}
+impl<T: Send> IsSend<T> { const YES: bool = true; }
+impl<T: Sync> IsSync<T> { const YES: bool = true; }
+macro_rules! markers { ($t:ty) => { [<IsSend<$t>>::YES, <IsSync<$t>>::YES] } }
+type SendNotSync = std::cell::Cell<u64>;
+type SyncNotSend = std::sync::MutexGuard<'static, u32>;
+type Neither = std::rc::Rc<u8>;
+fn thread_markers(mon: &mut Mon) {
+    let rows: [(&str, [bool; 2], [bool; 2], [bool; 2], [bool; 2]); 4] = [
+        ("u64", markers!(Arc<u64>), markers!(CArc<u64>), markers!(Option<Arc<u64>>), markers!(CArcSome<u64>)),
+        ("Cell<u64> (Send, not Sync)", markers!(Arc<SendNotSync>), markers!(CArc<SendNotSync>), markers!(Option<Arc<SendNotSync>>), markers!(CArcSome<SendNotSync>)),
+        ("MutexGuard (Sync, not Send)", markers!(Arc<SyncNotSend>), markers!(CArc<SyncNotSend>), markers!(Option<Arc<SyncNotSend>>), markers!(CArcSome<SyncNotSend>)),
+        ("Rc<u8> (neither)", markers!(Arc<Neither>), markers!(CArc<Neither>), markers!(Option<Arc<Neither>>), markers!(CArcSome<Neither>)),
+    ];
+    for (name, arc, carc, oarc, csome) in rows.iter() {
+        if arc != carc { mon.fail(format!("CArc<{}> is [Send, Sync] = {:?} but Arc of the same payload is {:?}: handles on several threads would reach a value that may not be shared like that", name, carc, arc)); }
+        if oarc != csome { mon.fail(format!("CArcSome<{}> is [Send, Sync] = {:?} but Option<Arc> of the same payload is {:?}", name, csome, oarc)); }
+    }
+}
+
 pub fn run(params: &[i64], ops: &Rows, mon: &mut Mon) -> Rows {
+    thread_markers(mon);
     FOREIGN_ON.store(params.get(0).copied().unwrap_or(0) == 1, SeqCst);
     let r = exec(ops, None, mon);
     FOREIGN_ON.store(false, SeqCst);
